@@ -22,6 +22,7 @@ import json
 import numpy as np
 
 from .data import Data
+from .data_association_enum import DataAssociationEnum
 from .primitive_type_enum import PrimitiveTypeEnum
 
 
@@ -69,6 +70,17 @@ class TextData(Data):
         ):
             raise ValueError(
                 f"Input 'values' for {self} must be of type {np.ndarray}  str or None."
+            )
+
+        if (
+            isinstance(values, np.ndarray)
+            and self.n_values is not None
+            and self.association is not DataAssociationEnum.OBJECT
+            and values.size > self.n_values
+        ):
+            raise ValueError(
+                f"Input 'values' of shape({self.n_values},) expected. "
+                f"Array of shape{values.shape} provided.)"
             )
 
         self._values = values
